@@ -35,7 +35,16 @@ reg("C01", "C01", _faulted("C01"), "exploration", {"quick": 2500, "thorough": 40
 reg("C02", "C02", _faulted("C02"), "exploration", {"quick": 2500, "thorough": 40000})
 reg("C06", "C06", _faulted("C06"), "exploration", {"quick": 2000, "thorough": 30000})
 reg("C07", "C07", _faulted("C07"), "exploration", {"quick": 2500, "thorough": 40000})
-reg("C08", "C08", _faulted("C08"), "exploration", {"quick": 3000, "thorough": 50000})
+def _c08_on_timeout(seed, idx, tier):
+    """A case hit the wall-clock watchdog: decide by counting steps (replayable), not by the clock."""
+    return engines.faulted_case("C08", seed, idx, tier, step_cap=engines.STEP_CAP)
+
+
+reg("C08", "C08", _faulted("C08"), "exploration", {"quick": 3000, "thorough": 50000},
+    on_timeout=_c08_on_timeout,
+    rule=RULE_WORLD + "; in addition, for one statement in 16 every reply-fault kind (NaN, +inf, -inf, 1e300) is "
+    "injected at EVERY evaluation index, one at a time (cut_points_enumerated), and one world in 32 runs under a "
+    "line-counting tracer with a cap of 5e6 cobyqa source lines between consecutive peer events (bounded progress)")
 reg("C05", "C05", _cut("C05"), "fault_enumeration", {"quick": 160, "thorough": 1500},
     rule=RULE_WORLD + "; for each sampled statement the budget maxfev=k is injected at EVERY k up to the tier's cap "
     "(and around nb_points) and maxiter=k at several k: cut_points_enumerated counts those runs")
